@@ -128,7 +128,7 @@ PROPS = {
         level_note=_CHAIN_NOTE,
     ),
     "C04": dict(
-        tie=["Ucan.Props.Tie.ChainTime", "Ucan.Props.Tie.ChainOrder"],
+        tie=["Ucan.Props.Tie.ChainTime", "Ucan.Props.Tie.ChainOrder", "Ucan.Props.Tie.ParseTime"],
         props_module="Ucan.Props.C04",
         streams=["chain", "token"],
         # the time fields of decoded tokens (what `parse.OptionalTimestamp` makes of the signed integers) belong to C04 too
@@ -184,6 +184,7 @@ PROPS = {
         level_note=_TOKEN_NOTE + " Conditional on EUF-CMA of the signature schemes: the theorems reduce 'no accepted modification changes a field' to 'no valid signature on a different message', they do not prove unforgeability.",
     ),
     "C07": dict(
+        tie=["Ucan.Props.Tie.ParseTime"],
         props_module="Ucan.Props.C07",
         streams=["token"],
         filter=_token_filter(["token.roundtrip"]),
@@ -192,6 +193,7 @@ PROPS = {
         level_note=_TOKEN_NOTE + " The component round trips are hypotheses of the theorems (DID: C16_parse_print; command: C15_parse_ok_iff; policy: C14_policy_roundtrip + the not-yet-proved selector print/parse idempotence).",
     ),
     "C10": dict(
+        tie=["Ucan.Props.Tie.ParseTime"],
         props_module="Ucan.Props.C10",
         streams=["token"],
         # field cases count in ONE direction: something malformed is accepted (or accepted with another value than the model
